@@ -134,8 +134,8 @@ struct EvalChecks {
     // ------------------------------------------------------------ A. single terms
     // cases: every state of the pool P (all variants), followed by every recipe of `deep` (terms one
     // level above the pool, built inside the worker; only the variants in variants_deep)
-    static void run_terms(const TermPool &P, const std::string &name, const std::vector<Recipe> &deep, const std::vector<int> &variants_deep,
-                          bool include_states = true)
+    static void run_terms(const TermPool &P, const std::string &name, const std::vector<int> &variants_states, const std::vector<Recipe> &deep,
+                          const std::vector<int> &variants_deep, bool include_states = true)
     {
         // case index -> state: values first, then booleans, then deep recipes
         const long long nv = P.V.size(), nb = P.B.size(), ns = nv + nb;
@@ -148,6 +148,7 @@ struct EvalChecks {
         auto st = [&](long long i) -> const State & { return i < nv ? P.V.S[i] : P.B.S[i - nv]; };
         auto rec = [&](long long i) { return i < ns ? st(i).recipe : P.rname(deep[i - ns]); };
         cs.desc = [&](long long i) { return TR::tname() + " term " + rec(i); };
+        cs.hang_s = TR::hang_s();
         cs.crash_sig = [&](long long i, const std::string &oc) {
             if (i < ns)
                 return TR::tname() + ":term:" + oc + ":" + skel(*st(i).e, 1);
@@ -176,11 +177,7 @@ struct EvalChecks {
                 ref[g] = real_eval(e, grid_point(g), TR::num());
             bool dep = depends_on_symbols(e);
             std::vector<int> vars;
-            if (i < ns)
-                for (int k = 0; k < TR::nvariants(); k++)
-                    vars.push_back(k);
-            else
-                vars = variants_deep;
+            vars = i < ns ? variants_states : variants_deep;
             std::string oc = type_code_name(e.get_type_code());
             bool any_judged = false;
             for (int k : vars) {
@@ -216,7 +213,7 @@ struct EvalChecks {
                                         "reloaded function gives " + tstr(o2[1]) + " but the original " + tstr(out[1]) + " for " + S.recipe + " ["
                                             + TR::vname(k) + "] at " + point_str(g));
                     }
-                    if (k == vars[0] && g % 4 == 0) {
+                    if (k == vars[0] && g == 4) {
                         c.count(K_SINGLE);
                         T s1 = TR::single(inputs, e, k, in.data());
                         if (!same_bits(s1, out[1]))
@@ -265,7 +262,7 @@ struct EvalChecks {
         RCP<const Basic> x = symbol("x"), y = symbol("y"), x0 = symbol("x0");
         return {{"x,y", {x, y}}, {"y,x", {y, x}}, {"x0,x,y", {x0, x, y}}};
     }
-    static void run_tuples(const std::string &name, int maxlen)
+    static void run_tuples(const std::string &name, int maxlen, const std::vector<int> &variants)
     {
         vec_basic pool = tuple_pool();
         auto orders = input_orders();
@@ -306,6 +303,7 @@ struct EvalChecks {
             return s + "] inputs [" + orders[i % no].first + "]";
         };
         cs.desc = [&](long long i) { return TR::tname() + " " + tname(i); };
+        cs.hang_s = TR::hang_s();
         cs.crash_sig = [&](long long i, const std::string &oc) { return TR::tname() + ":tuple:" + oc + ":inputs=" + orders[i % no].first; };
         // reference values per pool expression and point
         std::vector<std::array<NV, 9>> ref(np);
@@ -325,7 +323,7 @@ struct EvalChecks {
                         shared = true;
             if (shared)
                 c.nontrivial();
-            for (int k = 0; k < TR::nvariants(); k++) {
+            for (int k : variants) {
                 c.eval();
                 V v;
                 try {
@@ -485,7 +483,7 @@ struct EvalChecks {
             if (threw != fthrew) {
                 c.outcome("history:exception-mismatch");
                 c.violation(TR::tname() + ":history:" + (fthrew ? "init-accepted-but-fresh-visitor-throws" : "init-throws-but-fresh-visitor-accepts") + ":last="
-                                + last + (nfail ? ":after-a-failing-init" : ""),
+                                + last,
                             "after [" + hname(i) + "] the last init " + (threw ? "threw '" + what + "'" : "succeeded") + " but on a fresh visitor it "
                                 + (fthrew ? "throws '" + fwhat + "'" : "succeeds"));
                 return;
@@ -567,8 +565,10 @@ inline PoolCfg pool_cfg(int size)
     RCP<const Basic> x = symbol("x"), y = symbol("y");
     auto R = [](long a, long b) { return RCP<const Basic>(Rational::from_two_ints(a, b)); };
     PoolCfg c;
-    // ordered simplest first; size 0 (5 leaves) .. 3 (16 leaves)
-    c.leavesV = {{"x", x}, {"y", y}, {"2", integer(2)}, {"-1/2", R(-1, 2)}, {"2.5", real_double(2.5)}};
+    // ordered simplest first; size -1 (4 leaves), 0 (5 leaves) .. 3 (16 leaves)
+    c.leavesV = {{"x", x}, {"y", y}, {"2", integer(2)}, {"-1/2", R(-1, 2)}};
+    if (size >= 0)
+        c.leavesV.push_back({"2.5", real_double(2.5)});
     if (size >= 1) {
         c.leavesV.push_back({"-1", integer(-1)});
         c.leavesV.push_back({"pi", pi});
